@@ -6,8 +6,8 @@ TEXTS = {
     "C01": {
         "technique": SIM + "registries x policies x post-history states, reference-model oracle",
         "design_ref": "DESIGN.md 4 (C01)",
-        "text": "Seeded plans build arbitrary class graphs, methods of every pooled shape (virtual and non-virtual parameters at any position, arity 1-4, reference / pointer / shared_ptr / virtual_ptr / virtual_shared_ptr parameters) and focus-biased definition sets on each policy of the pool (checked/fast hash, no hash, map, indirect, throwing, stock debug/release with std_rtti), also after load/unload/update histories; every legal argument tuple is resolved three ways (bounds-checked table walk, M::fn(...), M::fn.resolve(...)) and compared with the documented 'more specific than every other applicable definition' rule evaluated by an independent model. Exploration, not proof.",
-        "note": "trusts the reference model and the legality rules; bounds: <= 24 classes, arity <= 4, <= 16 definitions per method",
+        "text": "Seeded plans build arbitrary class graphs, methods of every pooled shape (virtual and non-virtual parameters at any position, arity 1-5, reference / pointer / shared_ptr / virtual_ptr / virtual_shared_ptr parameters, also mixed in one method) and focus-biased definition sets on each policy of the pool (checked/fast hash, no hash, map, indirect, throwing, stock debug/release with std_rtti, the stock release_shared policy itself), also after load/unload/update histories; every legal argument tuple is resolved three ways (bounds-checked table walk, M::fn(...), M::fn.resolve(...)) and compared with the documented 'more specific than every other applicable definition' rule evaluated by an independent model. Exploration, not proof.",
+        "note": "trusts the reference model and the legality rules; bounds: <= 24 classes, arity <= 5, <= 16 definitions per method; one plan in eight is borrowed from another property's profile; in half of the runs objects whose dynamic class is a registered abstract class are legal arguments",
     },
     "C02": {
         "technique": SIM + "erroring calls x handler outcomes (throws / returns -> abort in a forked child)",
@@ -67,7 +67,7 @@ TEXTS = {
         "technique": SIM + "registries x update histories x stale / perturbed generated headers (fault); generated text vs installed offsets, differential against the twin policy without static offsets, accept / reject by the run-time consistency check",
         "design_ref": "DESIGN.md 4 (C12)",
         "text": "The generated header is durable state that crosses a process boundary: it is written by one run of the program and compiled into another whose registrations may have changed. Per run, the real write_static_offsets output is parsed and must equal, position by position, the slots and strides update installed (read the way the non-static call path reads them); it is then installed in static_offsets<> specialisations of every pooled method of a twin policy and every sampled call (operator(), resolve, next) must give what the same registry gives on the policy that reads offsets at run time. With the checked twin, offsets equal to the installed ones must never be reported, and after a stale or perturbed header every call of a method whose offsets differ must be reported (slot or stride error, once, before any definition runs).",
-        "note": "the C++ compiler is replaced by a parser of the generated text; arity 1-4, every pooled parameter kind; std_rtti policies only",
+        "note": "the C++ compiler is replaced by a parser of the generated text; arity 1-5, every pooled parameter kind; std_rtti policies only",
     },
     "C13": {
         "technique": SIM + "generator-process histories x consumer-process restarts; encode -> parse -> decode in a pristine policy; differential of outcome tables before / after, ASan-guarded emitted object, hash-budget fault inside decode",
